@@ -9,7 +9,6 @@ EXPLANATION = ('Value-flow normal forms and the loop summary of HMC::step with H
                'H = -logp + 1/2 sum_dim1 p^2 at both ends; accept mask = [H(x,p0) - H(x_L,p_L) - ln U >= 0] (non-strict), U uniform of shape [n_chains]; '
                'positions := mask_where(x, expand(unsqueeze_dim(mask,1)), x_L) as the only store; no tensor op on the slice mixes rows. '
                'Numeric reversibility "up to rounding" and row-wise behaviour of user densities are not decided.')
-FLOORS = {'obligations': 22}   # counted on the reference tree; fewer instantiated obligations is reported, never passed silently
 TECHNIQUE = 'value-flow normal form + loop summary (Verlet transfer function) vs specification table; op allow-list (row independence)'
 ULP = 'distributions::BatchedGradientTarget::unnorm_logp_batch'
 HALF = T.div(T.ONE, N(2))
@@ -124,7 +123,7 @@ def run(ctx):
                 draws = [s for s in E.rng_sites(ev) if s.kind == 'draw' and s.draw_kind == 'rng_random']
                 if len(draws) == 1 and len(draws[0].loops) == 1:
                     ul = E.loop_by_uid(ev, draws[0].loops[0])
-                    oku = ul.n is n_ch and any(ul.lx[k] is U[2][0] for k in ul.lx)
+                    oku = ul.n is n_ch and not ul.exits and any(seq is U[2][0] and el is draws[0].res for seq, el in collected(ul))
             ctx.check('C02.uniform', A, 'uniform', oku, expected='U = [n_chains] StandardUniform draws', found=show(U), sp=sp, why='one acceptance variate per chain')
     # ---- row independence
     bad = []
